@@ -19,7 +19,13 @@ Inductive expr :=
 | ENot (a : expr)
 | EIsNull (a : expr).
 
+Inductive hkind := HExit | HContinue.
+(* the statement of a handler: only single assignments are modelled *)
+Inductive hstmt := HSet (x : N) (e : expr) | HSetUser (u : N) (e : expr).
+
 Inductive stmt :=
+| SHandler (k : hkind) (h : hstmt)      (* DECLARE EXIT|CONTINUE HANDLER FOR SQLEXCEPTION h *)
+| SRaise (dup : bool)                   (* SIGNAL SQLSTATE '45000'  /  a duplicate-key INSERT *)
 | SSkip
 | SSeq (a b : stmt)
 | SDeclare (x : N) (v : val)            (* DECLARE x INT DEFAULT v *)
@@ -35,7 +41,10 @@ Inductive stmt :=
 
 (* ---------- state ---------- *)
 Definition scope := list (N * val).
-Record state := mkState { scopes : list scope; params : scope; users : scope }.
+(* a registered handler; the number is the operation counter of its DECLARE in the machine and the depth of its
+   declaring block in the definition *)
+Definition handler := (hkind * hstmt * Z)%type.
+Record state := mkState { scopes : list scope; hscopes : list (list handler); params : scope; users : scope }.
 
 Fixpoint assocN (k : N) (l : scope) : option val :=
   match l with [] => None | (k', v) :: r => if N.eqb k k' then Some v else assocN k r end.
@@ -61,22 +70,30 @@ Definition get_var (st : state) (x : N) : option val :=
 
 Definition set_var (st : state) (x : N) (v : val) : option state :=
   match set_scopes x v (scopes st) with
-  | Some ss => Some (mkState ss (params st) (users st))
+  | Some ss => Some (mkState ss (hscopes st) (params st) (users st))
   | None => match assocN x (params st) with
-            | Some _ => Some (mkState (scopes st) (setN x v (params st)) (users st))
+            | Some _ => Some (mkState (scopes st) (hscopes st) (setN x v (params st)) (users st))
             | None => None
             end
   end.
 
 Definition declare_var (st : state) (x : N) (v : val) : state :=
   match scopes st with
-  | s :: r => mkState (setN x v s :: r) (params st) (users st)
+  | s :: r => mkState (setN x v s :: r) (hscopes st) (params st) (users st)
   | [] => st
   end.
 
-Definition push_scope (st : state) : state := mkState ([] :: scopes st) (params st) (users st).
-Definition pop_scope (st : state) : state := mkState (tl (scopes st)) (params st) (users st).
-Definition set_user (st : state) (u : N) (v : val) : state := mkState (scopes st) (params st) (setN u v (users st)).
+(* NewHandler appends to the handlers of the current scope *)
+Definition declare_handler (st : state) (h : handler) : state :=
+  match hscopes st with
+  | s :: r => mkState (scopes st) ((s ++ [h]) :: r) (params st) (users st)
+  | [] => st
+  end.
+
+Definition push_scope (st : state) : state := mkState ([] :: scopes st) ([] :: hscopes st) (params st) (users st).
+Definition pop_scope (st : state) : state := mkState (tl (scopes st)) (tl (hscopes st)) (params st) (users st).
+Definition set_user (st : state) (u : N) (v : val) : state :=
+  mkState (scopes st) (hscopes st) (params st) (setN u v (users st)).
 
 Definition b2v (b : bool) : val := Some (if b then 1 else 0).
 
@@ -107,7 +124,32 @@ Fixpoint eval (st : state) (e : expr) : option val :=
 Definition truthy (v : val) : bool := match v with Some z => negb (z =? 0) | None => false end.
 
 (* ---------- structured semantics (the definition) ---------- *)
-Inductive outcome := ONormal | OLeave (l : label) | OIter (l : label) | OErr | ONoFuel.
+Inductive outcome := ONormal | OLeave (l : label) | OIter (l : label) | OExit (depth : Z) | OErr | ONoFuel.
+
+Definition run_hstmt (st : state) (h : hstmt) : option state :=
+  match h with
+  | HSet x e => match eval st e with Some v => set_var st x v | None => None end
+  | HSetUser u e => match eval st e with Some v => Some (set_user st u v) | None => None end
+  end.
+
+(* the most local handler: the last one declared in the innermost block that has any *)
+Fixpoint nearest_handler (hs : list (list handler)) : option handler :=
+  match hs with
+  | [] => None
+  | s :: r => match rev s with h :: _ => Some h | [] => nearest_handler r end
+  end.
+
+Definition depth_of (st : state) : Z := Z.of_nat (length (scopes st)).
+
+Definition raise (st : state) : outcome * state :=
+  match nearest_handler (hscopes st) with
+  | None => (OErr, st)
+  | Some (k, h, d) =>
+      match run_hstmt st h with
+      | None => (OErr, st)
+      | Some st' => match k with HContinue => (ONormal, st') | HExit => (OExit d, st') end
+      end
+  end.
 
 Definition lbl_match (l l' : label) : bool := negb (N.eqb l 0) && N.eqb l l'.
 
@@ -116,6 +158,8 @@ Fixpoint exec (fuel : nat) (s : stmt) (st : state) : outcome * state :=
   | O => (ONoFuel, st)
   | S f =>
     match s with
+    | SHandler k h => (ONormal, declare_handler st (k, h, depth_of st))
+    | SRaise _ => raise st
     | SSkip => (ONormal, st)
     | SSeq a b => match exec f a st with (ONormal, st1) => exec f b st1 | r => r end
     | SDeclare x v => (ONormal, declare_var st x v)
@@ -127,6 +171,8 @@ Fixpoint exec (fuel : nat) (s : stmt) (st : state) : outcome * state :=
     | SBlock l body =>
         match exec f body (push_scope st) with
         | (OLeave l', st1) => if lbl_match l l' then (ONormal, pop_scope st1) else (OLeave l', pop_scope st1)
+        | (OExit d, st1) => (* an EXIT handler declared in this block ends the block *)
+            if d =? depth_of (push_scope st) then (ONormal, pop_scope st1) else (OExit d, pop_scope st1)
         | (o, st1) => (o, pop_scope st1)
         end
     | SIf c th el => match eval st c with
@@ -172,6 +218,8 @@ Fixpoint exec (fuel : nat) (s : stmt) (st : state) : outcome * state :=
 
 (* ---------- operations ---------- *)
 Inductive op :=
+| OpHandler (k : hkind) (h : hstmt)         (* OpCode_Declare with a handler *)
+| OpRaise (dup : bool)                      (* OpCode_Signal / OpCode_Execute of the failing INSERT *)
 | OpSet (x : N) (e : expr)
 | OpExecUser (u : N) (e : expr)             (* OpCode_Execute of SET @u = e *)
 | OpDeclare (x : N) (v : val)
@@ -214,6 +262,8 @@ Definition zlen {A} (l : list A) : Z := Z.of_nat (length l).
 (* [compile ls base s] = the operations ConvertStmt appends for [s] when the op list has length base, and the label stack after *)
 Fixpoint compile (ls : lstack) (base : Z) (s : stmt) : list op * lstack :=
   match s with
+  | SHandler k h => ([OpHandler k h], ls)
+  | SRaise d => ([OpRaise d], ls)
   | SSkip => ([], ls)
   | SSeq a b => let '(ca, ls1) := compile ls base a in
                 let '(cb, ls2) := compile ls1 (base + zlen ca) b in (ca ++ cb, ls2)
@@ -303,6 +353,8 @@ Inductive sres := SOk (counter : Z) (st : state) | SErr | SPanic.
 (* execOp: returns the new counter (the caller increments it) *)
 Definition exec_op (ops : list op) (counter : Z) (o : op) (st : state) : sres :=
   match o with
+  | OpHandler k h => SOk counter (declare_handler st (k, h, counter))
+  | OpRaise _ => SErr
   | OpSet x e => match eval st e with
                  | Some v => match set_var st x v with Some st' => SOk counter st' | None => SErr end
                  | None => SErr
@@ -322,6 +374,49 @@ Definition exec_op (ops : list op) (counter : Z) (o : op) (st : state) : sres :=
   | OpScopeEnd _ _ => SOk counter (pop_scope st)
   end.
 
+(* handleError.  ListHandlers lists the scopes from the top, each in declaration order; the loop keeps the LAST
+   SQLEXCEPTION handler (the [break] only leaves the switch), i.e. the outermost one.  Only the first operation of the
+   handler statement is executed; if it returns a row iterator (OpCode_Execute: SET @u) draining it ends with io.EOF,
+   which handleError returns together with counter -1: the procedure restarts.  EXIT: scan forward from the handler's
+   DECLARE for the ScopeEnd of its block and continue after it (the ScopeEnd itself is skipped). *)
+Inductive hres := HNone | HFail | HPanic | HGo (counter : Z) (st : state).
+
+Fixpoint exit_scan (ops : list op) (n : nat) (pos remaining : Z) : option Z :=
+  if (remaining =? 0) || (zlen ops <=? pos) then Some pos else
+  match n with
+  | O => None
+  | S n' => match nth_op ops pos with
+            | None => None
+            | Some (OpScopeBegin _ _) => exit_scan ops n' (pos + 1) (remaining + 1)
+            | Some (OpScopeEnd _ _) => exit_scan ops n' (pos + 1) (remaining - 1)
+            | Some _ => exit_scan ops n' (pos + 1) remaining
+            end
+  end.
+
+Definition handle_error (ops : list op) (counter : Z) (st : state) : hres :=
+  match rev (concat (hscopes st)) with
+  | [] => HNone
+  | (k, h, hc) :: _ =>
+      match h with
+      | HSetUser u e => match eval st e with
+                        | Some v => HGo (-1) (set_user st u v)
+                        | None => HFail
+                        end
+      | HSet x e =>
+          match run_hstmt st (HSet x e) with
+          | None => HFail
+          | Some st' =>
+              match k with
+              | HContinue => HGo counter st'
+              | HExit => match exit_scan ops (S (length ops)) hc 1 with
+                         | Some nc => HGo (nc - 1) st'
+                         | None => HPanic
+                         end
+              end
+          end
+      end
+  end.
+
 (* the loop of Call: counter++; counter < 0 => panic; counter >= len => done *)
 Fixpoint run (ops : list op) (fuel : nat) (counter : Z) (st : state) : mres :=
   match fuel with
@@ -333,12 +428,16 @@ Fixpoint run (ops : list op) (fuel : nat) (counter : Z) (st : state) : mres :=
          | None => MDone st
          | Some o => match exec_op ops c o st with
                      | SOk c' st' => run ops f c' st'
-                     | SErr => MErr
+                     | SErr => match handle_error ops c st with
+                               | HGo c' st' => run ops f c' st'
+                               | HNone | HFail => MErr
+                               | HPanic => MPanic
+                               end
                      | SPanic => MPanic
                      end
          end
   end.
 
-Definition init_state (ps : scope) (us : scope) : state := mkState [[]] ps us.
+Definition init_state (ps : scope) (us : scope) : state := mkState [[]] [[]] ps us.
 
 Definition call (s : stmt) (fuel : nat) (ps us : scope) : mres := run (parse s) fuel (-1) (init_state ps us).
